@@ -5,6 +5,13 @@
 EXTENDS Naturals, Sequences, TLC, Json
 CONSTANTS D, Mode
 VARIABLE hist
+\* lookups placed around table slots at both ends of the table and in the middle (the table holds the pitches 0..128:
+\* 8.18 Hz ... 25087.7 Hz (127), 26579.5 Hz (128)); exact table values, values just off them, values outside the table
+FftQueries == {
+  "fft._find_log_index(0.0)", "fft._find_log_index(-5.0)", "fft._find_log_index(8.0)", "fft._find_log_index(8.175798915643707)", "fft._find_log_index(8.3)",
+  "fft._find_log_index(430.0)", "fft._find_log_index(435.0)", "fft._find_log_index(440.0)", "fft._find_log_index(450.0)", "fft._find_log_index(466.1637615180899)",
+  "fft._find_log_index(470.0)", "fft._find_log_index(23679.643021996148)", "fft._find_log_index(25000.0)", "fft._find_log_index(25087.70790283195)",
+  "fft._find_log_index(26000.0)", "fft._find_log_index(26579.50064511649)", "fft._find_log_index(30000.0)"}
 Queries == {
   "keys.get_notes('C')", "keys.get_notes('e')", "keys.get_notes('F#')", "keys.get_notes('G')", "keys.get_notes('a')",
   "keys.get_key_signature_accidentals('Eb')", "keys.get_key_signature_accidentals('D')", "keys.relative_minor('G')",
@@ -26,7 +33,7 @@ Queries == {
   "value.determine(12)", "value.dots(4)", "meter.is_compound((6, 8))",
   "fft._find_log_index(440.0)", "fft._find_log_index(466.1637615180899)", "fft._find_log_index(452.0)", "fft._find_log_index(415.3046975799451)",
   "fft._find_log_index(261.6255653005986)", "fft._find_log_index(27.5)", "fft._find_log_index(4186.009044809578)", "fft._find_log_index(1000.0)",
-  "fft._find_log_index(15.0)", "fft._find_log_index(8.175798915643707)", "fft._find_log_index(13000.0)", "fft._find_log_index(440.5)"}
+  "fft._find_log_index(15.0)", "fft._find_log_index(8.175798915643707)", "fft._find_log_index(13000.0)", "fft._find_log_index(440.5)"} \cup FftQueries
 Mutations == {
   "mut(keys.get_notes('C'), 'append')", "mut(keys.get_notes('e'), 'reverse')", "mut(keys.get_notes('G'), 'setitem')", "mut(keys.get_notes('F#'), 'clear')",
   "mut(keys.get_key_signature_accidentals('Eb'), 'append')",
@@ -45,6 +52,10 @@ Spec == Init /\ [][Next]_hist
 SNext == \E r \in 1..2, k \in 0..11 : Len(hist) < D /\ hist' = Append(hist, <<r, k>>)
             /\ (Len(hist') = D => PrintT("@@" \o ToJson([script |-> hist'])))
 SSpec == Init /\ [][SNext]_hist
-Alphabet == IF Mode = "emit" THEN PrintT("@@" \o ToJson([queries |-> Queries, mutations |-> Mutations])) ELSE TRUE
+\* every history of D lookups (position memory: the answer to the last one must not depend on the ones before)
+FNext == \E c \in FftQueries : Len(hist) < D /\ hist' = Append(hist, c)
+            /\ (Len(hist') = D => PrintT("@@" \o ToJson([hist |-> hist'])))
+FSpec == Init /\ [][FNext]_hist
+Alphabet == IF Mode = "emit" THEN PrintT("@@" \o ToJson([queries |-> Queries, mutations |-> Mutations, fft |-> FftQueries])) ELSE TRUE
 ASSUME Alphabet
 =============================================================================
